@@ -1,48 +1,95 @@
 (** C09 — Log rewrite is transparent and crash-atomic.
 
-    What is proved of the model of the code as it is (with the fixes in fixes/):
-    - [C09_fresh_log]: a rewrite before the first write leaves a log that restores, and every write
-      made afterwards is restored (the SELECT -1 header is gone);
-    - [C09_transparent_quiescent_partial]: on a quiescent server the disk after a completed rewrite
-      restores to the dataset before it — evaluated on a dataset with every value type, deadlines and
-      three databases (the general statement, for all datasets, is not proved: it needs the lemma that
-      loading a snapshot reproduces the view, left out for time);
-    - [C09_crash_atomic_refuted]: the full statement "every image between the file steps of a rewrite
-      restores to a prefix dataset that contains everything acknowledged" is FALSE of the code: after
-      the preamble is written and before the log is truncated, restore applies the whole log on top of
-      the new preamble (INCR counted twice); known finding C09-rewrite-not-crash-atomic;
-    - [C09_torn_preamble_refuted]: while the preamble is being written (truncated in place) a crash
-      restores nothing at all, not even the log.
-    The full statements are kept in the comments below.  The writer-versus-rewrite interleavings
-    ([C09_concurrent_writer]) are not modelled in Coq; the harness explores them (stream "concurrent"). *)
+    The model is the rewrite as repaired by fixes/fix-c09-atomic-rewrite.diff (Model/Aof.v, section
+    "The rewrite as repaired"): rewrites are numbered, the new preamble is written to a temporary file,
+    synced and renamed over preamble.bin, the log is truncated afterwards and numbered like the
+    preamble, and a restore does not replay a log older than the preamble it finds.
+
+    Proved, for every codec satisfying the three library round trips of [codec_ok], every sync policy,
+    every clock value, every history [es] of acknowledged writes (any commands, databases, value types,
+    deadlines - C02's [wr_ok], and not the word GENERATION, which is no command), completed rewrites at
+    any positions and in any number, and restarts:
+    - [C09_transparent_quiescent]: restoring the directory shows exactly the dataset the writes built
+      ([same_view]: keys, types, values, deadlines, database placement; keys whose deadline has
+      passed at the restore are absent on both sides);
+    - [C09_fresh_log]: the special case of a rewrite before the first write;
+    - [C09_crash_atomic]: the process dies at any instant of a rewrite begun after [es] - between any
+      two file operations, inside the header writes at any byte: restoring what is left shows the whole
+      dataset, every acknowledged write once;
+    - [C09_power_loss]: the same for every image a power loss can leave, except that before the switch
+      an image that lacks unsynced bytes of the log is an image C02 speaks about (none under "always":
+      [C09_power_loss_always]);
+    - [C09_recovery_completes]: the process that starts on what a crash after the switch left is again
+      in the invariant all of the above is proved from (a stale log has been truncated and numbered),
+      so whatever it does next is covered too.
+    Writes cannot run while a rewrite runs (REWRITEAOF is a command, every command holds the command
+    lock: C05); the histories above are the serial orders that lock leaves.  The interleavings are
+    explored against the implementation by the harness (stream "concurrent").
+    [C09_legacy_crash_atomic_refuted], [C09_legacy_torn_preamble_refuted]: the steps of the code before
+    the repair (preamble truncated and rewritten in place, log truncated afterwards, no numbers) do not
+    have the property - kept as regression witnesses.
+    Hypotheses that are not proved: the file-system behaviour of Model/Disk.v, and of rename (atomic;
+    on disk before the truncation of the log because the directory is synced in between); the same
+    clock in the restoring process (C02-relative-expiry); fewer than 2^29 rewrites in a history (the
+    number is printed in the log and must fit the reader's limits, like a database index in C02).
+    [C09_transparent_quiescent] and the theorems built on it depend on functional extensionality
+    (through [ProgLemmas.run_seq_congruence]). *)
 From stdpp Require Import gmap strings.
 From EV Require Import Base.Str Model.Value Model.Keyspace Model.Reply Model.Prog Model.Dispatch.
-From EV Require Import Model.Resp Model.Disk Model.Aof Spec.SpecDurable Proofs.RespProofs Proofs.AofProofs.
+From EV Require Import Model.Resp Model.Disk Model.Aof Model.SnapCodec Spec.SpecDurable.
+From EV Require Import Proofs.KeyspaceLemmas Proofs.RespProofs Proofs.AofProofs Proofs.AofRewriteProofs.
 Local Open Scope Z_scope.
 
-Lemma load_snapshot_empty s : load_snapshot s ∅ = s.
-Proof. unfold load_snapshot. by rewrite map_to_list_empty. Qed.
-Lemma snapshot_of_init now : snapshot_of (init_state now) = ∅.
-Proof. unfold snapshot_of, init_state. simpl. apply fmap_empty. Qed.
+Theorem C09_transparent_quiescent c now pol es :
+  codec_ok c -> Z.of_nat (length es) < max_bulk -> Forall ev_ok es ->
+  let v := srv_run c pol now (srv_init now) es in
+  same_view (run_writes (init_state now) (ev_writes es))
+            (restore_g c now (v_pre v) (f_all (a_log (v_aof v)))).
+Proof. intros Hc. exact (rewrite_transparent c Hc now pol es). Qed.
 
-Theorem C09_fresh_log now pol h : Forall wr_ok h ->
-  let '(pre, a) := rewrite_final (init_state now) aof_fresh in
-  restore now pre (f_all (a_log a)) = init_state now /\
-  restore now pre (f_all (a_log (aof_run pol a h))) = run_writes (init_state now) h.
+Theorem C09_fresh_log c now pol es :
+  codec_ok c -> Z.of_nat (length es) + 1 < max_bulk -> Forall ev_ok es ->
+  let v := srv_run c pol now (srv_init now) (EvRewrite :: es) in
+  same_view (run_writes (init_state now) (ev_writes es))
+            (restore_g c now (v_pre v) (f_all (a_log (v_aof v)))).
 Proof.
-  intros Hok. unfold rewrite_final. rewrite snapshot_of_init. cbn [aof_fresh a_cur trunc_header].
-  change (-1 <? 0) with true. cbv iota. unfold restore. rewrite load_snapshot_empty. split.
-  - reflexivity.
-  - change (trunc_header (-1)) with (@nil ascii).
-    destruct (log_bytes_run pol h (Aof (f_sync (f_write empty_file [])) (-1))) as [-> _].
-    cbn [a_log a_cur]. change (f_all (f_sync (f_write empty_file []))) with (@nil ascii). cbn [app].
-    pose proof (restore_recs now (log_recs (-1) h) (log_recs_ok h (-1) Hok)) as Hr. unfold restore in Hr.
-    rewrite Hr. rewrite rp_log_recs by (auto; right; lia). done.
+  intros Hc Hn Hes. apply (rewrite_transparent c Hc now pol (EvRewrite :: es)); [simpl length; lia|by constructor].
 Qed.
 
-(** Full statement (not true of the code):
-      forall s pre a (the live server: dataset s, preamble pre, log a, with restore now pre (log a) ≈ s),
-      forall (label, pre', f') ∈ rewrite_steps s pre a, restore now pre' (f_all f') ≈ s. *)
+Theorem C09_crash_atomic c now pol es t0 x :
+  codec_ok c -> Z.of_nat (length es) + 1 < max_bulk -> Forall ev_ok es ->
+  let v := srv_run c pol now (srv_init now) es in
+  In x (rewrite_instants c (v_st v) (v_gen v) t0 (v_pre v) (v_aof v)) ->
+  same_view (run_writes (init_state now) (ev_writes es)) (restore_g c now (dir_death x).1 (dir_death x).2).
+Proof. intros Hc. exact (rewrite_crash_atomic_hist c Hc now pol es t0 x). Qed.
+
+Theorem C09_power_loss c now pol es t0 x img :
+  codec_ok c -> Z.of_nat (length es) + 1 < max_bulk -> Forall ev_ok es ->
+  let v := srv_run c pol now (srv_init now) es in
+  In x (rewrite_instants c (v_st v) (v_gen v) t0 (v_pre v) (v_aof v)) -> In img (dir_power x) ->
+  same_view (run_writes (init_state now) (ev_writes es)) (restore_g c now img.1 img.2) \/
+  (d_pre x = v_pre v /\ d_log x = a_log (v_aof v) /\ f_pending (a_log (v_aof v)) <> [] /\ img.2 <> death_image (d_log x)).
+Proof. intros Hc. exact (rewrite_power_loss_hist c Hc now pol es t0 x img). Qed.
+
+Theorem C09_power_loss_always c now n v t0 x img :
+  codec_ok c -> n + 1 < max_bulk -> srv_inv c now n v -> f_pending (a_log (v_aof v)) = [] ->
+  In x (rewrite_instants c (v_st v) (v_gen v) t0 (v_pre v) (v_aof v)) -> In img (dir_power x) ->
+  same_view (v_st v) (restore_g c now img.1 img.2).
+Proof. intros Hc. exact (rewrite_power_loss_always c Hc now n v t0 x img). Qed.
+
+Theorem C09_recovery_completes c now n v b suf rs t :
+  codec_ok c -> n + 1 < max_bulk -> srv_inv c now n v -> Forall rcd_ok rs -> b ++ suf = recs_bytes rs ->
+  (forall m, match firstn m rs with r :: _ => rcd_gen r | [] => 0 end <= v_gen v) \/
+    rs = hdr_recs (v_gen v + 1) (a_cur (v_aof v)) ->
+  srv_inv c now (n + 1) (srv_start c now (PfDoc (v_gen v + 1) (preamble_of c (v_st v))) t b).
+Proof. intros Hc. exact (recovery_completes c Hc now n v b suf rs t). Qed.
+
+(** The histories the theorems speak about are not empty of interest: every write command of the
+    table is a legal event ([not_gen_name]), and the invariant holds of a fresh server. *)
+Example C09_inv_nonvacuous c now : srv_inv c now 0 (srv_init now).
+Proof. apply srv_inv_init. Qed.
+
+(** * The code before the repair (regression witnesses) *)
 Definition ex_hist : list wr := [(0, ["INCR"; "n"]); (0, ["RPUSH"; "l"; "a"])].
 Definition ex_now : Z := 1700000000000.
 Definition ex_live : state := run_writes (init_state ex_now) ex_hist.
@@ -50,7 +97,7 @@ Definition ex_aof : aof := aof_run Always aof_fresh ex_hist.
 Definition prefix_views : list string :=
   map (fun j => show_view (dataset_after (init_state ex_now) ex_hist j)) (seq 0 3).
 
-Theorem C09_crash_atomic_refuted :
+Theorem C09_legacy_crash_atomic_refuted :
   exists label pre f, In (label, pre, f) (rewrite_steps ex_live PreEmpty ex_aof) /\
     ~ In (show_view (restore ex_now pre (f_all f))) prefix_views.
 Proof.
@@ -59,7 +106,7 @@ Proof.
   - vm_compute. intros [H|[H|[H|[]]]]; discriminate H.
 Qed.
 
-Theorem C09_torn_preamble_refuted :
+Theorem C09_legacy_torn_preamble_refuted :
   exists label pre f, In (label, pre, f) (rewrite_steps ex_live PreEmpty ex_aof) /\
     show_view (restore ex_now pre (f_all f)) = show_view (init_state ex_now) /\
     show_view (restore ex_now pre (f_all f)) <> show_view ex_live.
@@ -70,19 +117,31 @@ Proof.
   - vm_compute. discriminate.
 Qed.
 
-(** Transparency of a completed rewrite, on one dataset with every value type. *)
+(** The same crash point after the repair, evaluated: the new preamble next to the old log. *)
+Example C09_repaired_same_point :
+  show_view (restore_pg ex_now (PreFull (snapshot_of ex_live)) 1 (f_all (a_log ex_aof))) = show_view ex_live.
+Proof. vm_compute. reflexivity. Qed.
+
+(** Transparency evaluated on one dataset with every value type, a deadline and three databases: a
+    completed rewrite (generation 1), then one more write, then a restore. *)
 Definition ex_hist2 : list wr :=
   [(12, ["SET"; "k"; "v1"; "PXAT"; "4102444800000"]); (2, ["RPUSH"; "l"; "a"; "b"]); (2, ["INCR"; "n"]);
    (0, ["SADD"; "s"; "x"]); (12, ["HSET"; "h"; "f"; "1"]); (0, ["ZADD"; "z"; "1.5"; "m"]); (2, ["INCRBYFLOAT"; "q"; "0.5"])].
-Theorem C09_transparent_quiescent_partial :
+Example C09_transparent_example :
   let s := run_writes (init_state ex_now) ex_hist2 in
-  let '(pre, a) := rewrite_final s (aof_run EverySec aof_fresh ex_hist2) in
-  show_view (restore ex_now pre (f_all (a_log a))) = show_view s /\
-  show_view (restore ex_now pre (f_all (a_log (aof_run EverySec a [(2, ["INCR"; "n"])])))) =
+  let a := aof_run EverySec aof_fresh ex_hist2 in
+  let f := apply_ops empty_file (hdr_ops 1 (a_cur a)) in
+  show_view (restore_pg ex_now (PreFull (snapshot_of s)) 1 (f_all f)) = show_view s /\
+  show_view (restore_pg ex_now (PreFull (snapshot_of s)) 1
+               (f_all (a_log (aof_run EverySec (Aof f (a_cur a)) [(2, ["INCR"; "n"])])))) =
   show_view (run_writes s [(2, ["INCR"; "n"])]).
 Proof. vm_compute. split; reflexivity. Qed.
 
+Print Assumptions C09_transparent_quiescent.
 Print Assumptions C09_fresh_log.
-Print Assumptions C09_crash_atomic_refuted.
-Print Assumptions C09_torn_preamble_refuted.
-Print Assumptions C09_transparent_quiescent_partial.
+Print Assumptions C09_crash_atomic.
+Print Assumptions C09_power_loss.
+Print Assumptions C09_power_loss_always.
+Print Assumptions C09_recovery_completes.
+Print Assumptions C09_legacy_crash_atomic_refuted.
+Print Assumptions C09_legacy_torn_preamble_refuted.
